@@ -14,15 +14,25 @@ import (
 // vhAddress builds an address string from arbitrary parts the way an adversary can: any version byte,
 // a key of any length 0..34, and either the matching checksum (computed by the real function, so the
 // construction replays natively with the real SHA-256) or four arbitrary bytes.
+const version_ = version
+
 func vhAddress(name string) (addr string, version byte, key []byte, goodChecksum bool) {
 	version = verifrt.NondetU8(name + ".version")
 	key = verifrt.NondetBytes(name+".key", 0, 34)
 	payload := append([]byte{version}, key...)
 	var cs []byte
-	if verifrt.Choose(name+".checksum", 2) == 0 {
-		cs, goodChecksum = checksum(payload), true
-	} else {
+	genuine := checksum(payload)
+	reversioned := checksum(append([]byte{version_}, key...)) // the checksum of the same key under the standard version byte
+	// idealisation (DESIGN §2.7): the 4-byte checksum does not collide between the two version readings of one key
+	verifrt.Assume(version == version_ || string(genuine) != string(reversioned))
+	switch verifrt.Choose(name+".checksum", 3) {
+	case 0:
+		cs, goodChecksum = genuine, true
+	case 1:
+		cs = reversioned
+	default: // any other four bytes (the two computed values are the cases above, so the split is exhaustive)
 		cs = verifrt.NondetBytes(name+".cs", 4, 4)
+		verifrt.Assume(string(cs) != string(genuine) && string(cs) != string(reversioned))
 	}
 	return string(serializer.Base58Encode(append(payload, cs...))), version, key, goodChecksum
 }
